@@ -127,6 +127,7 @@ type Run struct {
 	Level    string
 	Start    time.Time
 	Scratch  string
+	crashes  int64 // child crashes/hangs pinned down so far (atomic)
 
 	mu        sync.Mutex
 	Coverage  map[string]any
